@@ -380,6 +380,16 @@ package dsl
 //@ json-visible C04 dsl.TypeCase.Tag=tag dsl.TypeCase.Type=type dsl.Vector.Length=length dsl.Array.Dimensions=dimensions dsl.ArrayDimension.Length=length dsl.ArrayDimension.Name=name dsl.Map.KeyType=keyType
 //@ json-visible C04 dsl.ProtocolSchema.Protocol=protocol dsl.ProtocolSchema.Types=types
 
+// Comments do not reach the schema: the comment of every node kind that has one is cleared, and every node that can
+// contain such nodes (a field's or step's type holds array dimensions) is rewritten below itself as well.
+//@ observe-args dsl.(*Rewriter).DefaultRewrite
+//@ func removeComments$1
+//@   property C04
+//@   ensures definition_comment_is_cleared: typeof(node) == *DefinitionMeta && node.(*DefinitionMeta) != nil ==> result.(*DefinitionMeta).Comment == ""
+//@   ensures dimension_comment_is_cleared: typeof(node) == *ArrayDimension && node.(*ArrayDimension) != nil ==> result.(*ArrayDimension).Comment == ""
+//@   ensures enum_value_comment_is_cleared: typeof(node) == *EnumValue && node.(*EnumValue) != nil ==> result.(*EnumValue).Comment == ""
+//@   ensures containers_are_rewritten_below: typeof(node) != *DefinitionMeta && typeof(node) != *ArrayDimension && typeof(node) != *EnumValue ==> called("dsl.(*Rewriter).DefaultRewrite")
+
 // The types of a schema are ordered by their qualified name: the order of definitions and files cannot matter.
 //@ func GetProtocolSchema$2
 //@   property C04,C12,C13
@@ -470,7 +480,8 @@ package dsl
 //@   ensures stream_in_protocol_is_accepted: typeof(node) == *Stream && typeof(context) == *ProtocolDefinition ==> len(errorSink.Errors) == old(len(errorSink.Errors))
 // "directly": the item type of a vector, array, map or stream and the cases of a union hang below a *TypeCase; whatever
 // is below one is no longer the step's own type, so it must not be visited with the protocol as its context.
-//@   ensures nested_types_lose_the_protocol_context: typeof(node) == *TypeCase ==> typeof(lastArg("dsl.(VisitorWithContext[Node]).VisitChildren", 2)) != *ProtocolDefinition
+// The same holds for the type arguments of a reference (`Box<!stream ...>`): they hang below a *SimpleType.
+//@   ensures nested_types_lose_the_protocol_context: typeof(node) == *TypeCase || typeof(node) == *SimpleType ==> typeof(lastArg("dsl.(VisitorWithContext[Node]).VisitChildren", 2)) != *ProtocolDefinition
 //@ observe-args dsl.(VisitorWithContext[Node]).VisitChildren
 
 // Unions (docs: "adding or removing types of a union" is a change that is reported, with a warning): two unions with a
@@ -485,6 +496,53 @@ package dsl
 //@   invariant 3: allMatch ==> (forall k in 0..rangeindex+1 :: newMatches[k])
 //@   invariant 4: allMatch ==> (forall k in 0..len(newMatches) :: newMatches[k]) && (forall k in 0..rangeindex+1 :: oldMatches[k])
 //@   ensures a_different_number_of_cases_is_a_change: lastResult("dsl.(*TypeCases).IsUnion") && len(oldType.Cases) != len(newType.Cases) ==> result != nil
+
+// A real operand that becomes complex is first converted to the floating-point type of the same precision as the
+// complex target: float for complexfloat, double for complexdouble (a narrower intermediate type would lose digits
+// that the target can hold).
+//@ observe-args dsl.insertConversion
+//@ func adjustConversion
+//@   property C19
+//@   requires conversionExpression != nil
+//@   ensures complexdouble_goes_through_double: called(insertConversion) && lastResult(GetPrimitiveType).r0 == ComplexFloat64 ==> lastArg(insertConversion, 1) == Float64Type
+//@   ensures complexfloat_goes_through_float: called(insertConversion) && lastResult(GetPrimitiveType).r0 == ComplexFloat32 ==> lastArg(insertConversion, 1) == Float32Type
+//@   ensures real_to_complex_is_widened_first: called(GetPrimitiveType) && (lastResult(GetPrimitiveType).r0 == ComplexFloat64 || lastResult(GetPrimitiveType).r0 == ComplexFloat32) ==> called(insertConversion)
+
+// A generated reader recognises a previous version by the schema text that a writer of that version embeds. The
+// generators take that text from the recorded ProtocolChange and fall back to the current schema when nothing is
+// recorded: so a protocol that exists in both versions and has no recorded change must have the same schema text in
+// both (an alias that was added or removed changes the text without changing the data).
+//@ func resolveAllProtocolChanges
+//@   property C05,C15
+//@   requires newEnv != nil && oldEnv != nil
+//@   iteration 4: unrecorded_means_same_schema_text: (oldProt.DefinitionMeta.GetQualifiedName() in newProts) && !(oldProt.DefinitionMeta.GetQualifiedName() in allProtocolChanges) ==> GetProtocolSchemaString(oldProt, oldEnv.SymbolTable) == GetProtocolSchemaString(newProts[oldProt.DefinitionMeta.GetQualifiedName()], newEnv.SymbolTable)
+
+// Records: the generated conversion code reads and writes the fields of the old version in the old order and binds
+// them through the recorded NewFieldIndex, so "no change" may only be reported when the old fields sit at the same
+// positions in the new record (docs: reordering fields is a compatible change - which means it is handled, not ignored).
+//@ func compareRecordDefinitions
+//@   property C05,C06
+//@   requires newRecord != nil && oldRecord != nil
+//@   invariant 1: forall n string :: (n in newFieldIndices) ==> 0 <= newFieldIndices[n] && newFieldIndices[n] < len(newRecord.Fields) && newRecord.Fields[newFieldIndices[n]].Name == n
+//@   invariant 1: forall n string :: (n in newFields) <==> (n in newFieldIndices)
+//@   invariant 2: forall n string :: (n in newFields) <==> (n in newFieldIndices)
+//@   invariant 2: len(change.NewFieldIndex) == len(oldRecord.Fields) && len(change.FieldRemoved) == len(oldRecord.Fields) && len(change.FieldChanges) == len(oldRecord.Fields)
+//@   invariant 2: forall n string :: (n in newFieldIndices) ==> 0 <= newFieldIndices[n] && newFieldIndices[n] < len(newRecord.Fields) && newRecord.Fields[newFieldIndices[n]].Name == n
+//@   invariant 2: !fieldsReordered ==> (forall k in 0..rangeindex+1 :: !change.FieldRemoved[k] ==> k < len(newRecord.Fields) && newRecord.Fields[k].Name == oldRecord.Fields[k].Name)
+//@   invariant 3: forall k in 0..len(oldRecord.Fields) :: !change.FieldRemoved[k] ==> k < len(newRecord.Fields) && newRecord.Fields[k].Name == oldRecord.Fields[k].Name
+//@   invariant 3: forall k in 0..rangeindex+1 :: !change.FieldRemoved[k]
+//@   ensures no_change_means_same_positions: result == nil ==> (forall k in 0..len(oldRecord.Fields) :: k < len(newRecord.Fields) && newRecord.Fields[k].Name == oldRecord.Fields[k].Name)
+
+// Which old definitions need compatibility code and have their changes validated: everything reachable from the old
+// type of a changed step. Two references to the same generic definition (`Pair<int>`, `Pair<Sample>`) are different
+// nodes with different children, so the walk may not stop at a name it has seen: every definition is entered, every
+// reference is followed, every other node is descended.
+//@ func resolveAllChanges$1
+//@   property C06,C05
+//@   ensures alias_target_is_followed: typeof(node) == *NamedType && node.(*NamedType) != nil ==> called("dsl.(Visitor).Visit")
+//@   ensures definition_is_entered: typeof(node) == *RecordDefinition || typeof(node) == *EnumDefinition || typeof(node) == *ProtocolDefinition ==> called("dsl.(Visitor).VisitChildren")
+//@   ensures reference_is_followed: typeof(node) == *SimpleType && node.(*SimpleType) != nil ==> called("dsl.(Visitor).Visit")
+//@   ensures everything_else_descends: typeof(node) == *GeneralizedType || typeof(node) == *TypeCase || typeof(node) == *Field || typeof(node) == *Vector || typeof(node) == *Array || typeof(node) == *Map || typeof(node) == *Stream ==> called("dsl.(Visitor).VisitChildren")
 
 // Collections (docs/cpp/evolution.md: "changing a scalar type to a vector or array" is incompatible; the binary format
 // gives a fixed-length vector and a fixed array no length prefix, so a changed length or shape is a different layout).
@@ -549,6 +607,17 @@ package dsl
 //@   ensures every_reference_is_resolved: typeof(node) == *SimpleType ==> called(resolveType)
 //@   ensures unresolved_reference_is_an_error: typeof(node) == *SimpleType && errSeen(resolveType) ==> called("validation.(*ErrorSink).Add")
 
+// "unused type parameter": every declared parameter (by identity, so two parameters of the same name are two entries)
+// is put on the list before the definition is visited; a reference that resolves to a parameter strikes it off; what
+// is left afterwards is reported, one error each.
+//@ func validateGenericParametersUsed$1
+//@   property C09
+//@   requires errorSink != nil
+//@   invariant 0: forall k in 0..rangeindex+1 :: (meta.TypeParameters[k] in usedTypeParameters)
+//@   iteration 1: every_parameter_left_over_is_an_error: len(errorSink.Errors) == old(len(errorSink.Errors)) + 1
+//@   ensures definitions_with_parameters_are_visited_with_the_list: (typeof(node) == *RecordDefinition || typeof(node) == *NamedType) && len(node.(TypeDefinition).GetDefinitionMeta().TypeParameters) > 0 ==> called("dsl.(VisitorWithContext[map[*GenericTypeParameter]any]).VisitChildren")
+//@   ensures everything_else_descends: typeof(node) != *RecordDefinition && typeof(node) != *NamedType && typeof(node) != *EnumDefinition && typeof(node) != *ProtocolDefinition ==> called("dsl.(VisitorWithContext[map[*GenericTypeParameter]any]).VisitChildren")
+
 // Union rules apply to every union of the model, also to one written as a generic type argument
 // (`Foo<[int, int]>`, `!generic {name: Foo, args: [[int, int]]}`): the pass descends below every node.
 //@ func validateUnionCases$1
@@ -581,3 +650,6 @@ package dsl
 //@ func validateEnums$1
 //@   property C09
 //@   ensures non_enums_descend: typeof(node) != *EnumDefinition ==> called("dsl.(Visitor).VisitChildren")
+
+// Output and diagnostics may not depend on the iteration order of a Go map (C12): decided per `range` over a map.
+//@ map-order C12 package
